@@ -18,13 +18,19 @@ use crate::pool::CoroutinePool;
 use crate::sync::AtomicOption;
 use crate::timeout_list;
 use crate::yield_now::set_co_para;
+#[cfg(not(may_verif))]
 use may_queue::mpsc::Queue;
+#[cfg(may_verif)]
+use crate::verif::Queue;
 
 cfg_if::cfg_if! {
     if #[cfg(feature = "crossbeam_queue_steal")] {
         use crate::crossbeam_queue_shim::{self as spmc, Local, Steal};
     } else if #[cfg(feature = "work_steal")] {
+        #[cfg(not(may_verif))]
         use may_queue::spmc::{self, Local, Steal};
+        #[cfg(may_verif)]
+        use crate::verif::spmc::{self, Local, Steal};
     } else {
         use may_queue::spsc::Queue as Local;
     }
@@ -202,6 +208,8 @@ impl Scheduler {
     #[inline]
     #[cfg(feature = "work_steal")]
     pub fn schedule_with_id(&self, co: CoroutineImpl, id: usize) {
+        #[cfg(may_verif)]
+        crate::verif::note("sched_local", &crate::verif::co_name(&co));
         let local = unsafe { &mut *self.local_queues.get_unchecked(id).get() };
         local.push_back(co);
     }
@@ -216,6 +224,8 @@ impl Scheduler {
     /// put the coroutine to global queue so that next time it can be scheduled
     #[inline]
     pub fn schedule_global(&self, co: CoroutineImpl) {
+        #[cfg(may_verif)]
+        crate::verif::note("sched_global", &crate::verif::co_name(&co));
         static NEXT_THREAD_ID: AtomicUsize = AtomicUsize::new(0);
         let thread_id = NEXT_THREAD_ID
             .fetch_add(1, Ordering::Relaxed)
@@ -230,6 +240,10 @@ impl Scheduler {
     #[inline]
     pub fn schedule_global_with_id(&self, co: CoroutineImpl, id: usize) {
         let thread_id = id.rem_euclid(self.workers);
+        #[cfg(may_verif)]
+        crate::verif::note("sched_global_id", &crate::verif::co_name(&co));
+        #[cfg(may_verif)]
+        crate::verif::note("sched_id", &thread_id.to_string());
         // println!("Scheduling to {thread_id}");
         let global = unsafe { self.global_queues.get_unchecked(thread_id) };
         global.push(co);
